@@ -320,6 +320,7 @@ def run(ctx):
     sims = [(150, 10), (150, 30), (100, 60)] if quick else [(2000, 10), (2000, 30), (1000, 60)]
     cases = []             # (atoms, net, peak, group)
     sizes = {}
+    heads = {}
     gen_states = 0
     with ThreadPoolExecutor(3) as ex:
         futs = [(a, k, ex.submit(generate, ctx, a, k)) for a, k in gens]
@@ -330,6 +331,7 @@ def run(ctx):
             gr, head, cs = f.result()
             gen_states += gr.distinct
             sizes["%s<=%d" % (a, k)] = [len(head["alphabet"]), len(cs)]
+            heads[a] = head
             for s, net, peak in cs:
                 t = tuple(s)
                 if t not in seen:
@@ -344,14 +346,27 @@ def run(ctx):
     for s, net, peak, g in cases:
         if peak > MAXNEST:
             ctx.machinery("WikiTokens generated a text above the nesting bound")
-    # ---- languages: rotating subset (quick) / all for the <=2-lexeme texts (thorough)
+    # ---- which texts, which languages
+    struct = set(heads["full"]["structural"])
+    langsens = set(heads["full"]["langsensitive"])
     plan = {l: [] for l in W.LANGS}
+    nl = len(W.LANGS)
+    selected = 0
     for cid, (s, net, peak, g) in enumerate(cases):
-        if quick or g in ("structural3", "sim"):
-            plan[W.LANGS[(cid + ctx.seed) % len(W.LANGS)]].append((cid, s))
+        if quick:
+            # all single lexemes, all structural pairs, a rotating eighth of the other pairs, the long ones
+            if not (len(s) <= 1 or g == "sim" or all(x in struct for x in s) or cid % 8 == ctx.seed % 8):
+                continue
+            langs = [W.LANGS[(cid + ctx.seed) % nl]]
+        elif g in ("structural3", "sim"):
+            langs = [W.LANGS[(cid + ctx.seed) % nl]]
+        elif any(x in langsens for x in s):
+            langs = W.LANGS
         else:
-            for l in W.LANGS:
-                plan[l].append((cid, s))
+            langs = [W.LANGS[(cid + ctx.seed + j) % nl] for j in (0, 5)]
+        selected += 1
+        for l in langs:
+            plan[l].append((cid, s))
     t1 = time.time()
     traces, crashes, hangs, structured, nparse = execute(ctx, sorted(plan.items()), tplmod=(4, ctx.seed % 4) if quick else None)
     ctx.note("generation %.0fs, %d parses in %.0fs" % (t1 - t0, nparse, time.time() - t1))
@@ -376,11 +391,9 @@ def run(ctx):
                       "no result within %ds (normal: ~1 ms)" % WATCHDOG,
                       {"kind": "hang", "atoms": cases[cid][0], "mode": mode, "lang": lang})
     # ---- growth
-    if not quick:
-        _load_struct(ctx)
     singles = [(cid, c) for cid, c in enumerate(cases) if c[3] in ("full1",)]
     pairs = [(cid, c) for cid, c in enumerate(cases) if c[3] == "full2"]
-    spairs = [(cid, c) for cid, c in pairs if all(x in STRUCT for x in c[0])] if not quick else []
+    spairs = [(cid, c) for cid, c in pairs if all(x in struct for x in c[0])] if not quick else []
     sample = rnd.sample(pairs, min(len(pairs), 200 if quick else 1500))
     longs = [(cid, c) for cid, c in enumerate(cases) if c[3] == "sim"]
     longs = rnd.sample(longs, min(len(longs), 20 if quick else 200))
@@ -403,7 +416,7 @@ def run(ctx):
                               {"kind": "growth", "atoms": atoms, "series": sname, "mode": mode,
                                "net": chosen[idx][1], "peak": chosen[idx][2], "idx": idx, "counts": counts})
     ctx.set_cover(evaluations=nparse + nmeasured, distinct_nontrivial=len(structured), exhaustive=True,
-                  texts=len(cases), parses=nparse, enumerated=sizes, languages=len(W.LANGS),
+                  texts=len(cases), texts_parsed=selected, parses=nparse, enumerated=sizes, languages=len(W.LANGS),
                   distinct_stage_traces=len(keys), raising_stage_traces=len(raise_keys),
                   traces_validated_against_impl=sum(t[0] for t in traces.values()),
                   states=mc_states + gen_states + tstates, transitions=mc_trans + ttrans,
@@ -415,7 +428,8 @@ def run(ctx):
                        "ParsePipeline.tla; distinct non-trivial = distinct texts whose tree (no database) contains a node "
                        "other than Article/Paragraph/Node/Text; growth: %d texts pumped in %d series"
                        % (", ".join("%s: %d lexemes, %d sequences" % (k, v[0], v[1]) for k, v in sizes.items() if isinstance(v, list)),
-                          nsim, "one rotating language per text" if quick else "all 12 bundled languages (<=2 lexemes) / a rotating one",
+                          nsim, "one rotating language per text (quick: all single lexemes, all Structural pairs, a rotating eighth of the other pairs)" if quick
+                          else "all 12 bundled languages for texts with a language-sensitive lexeme, two rotating ones otherwise, one for 3-lexeme and long texts",
                           len(items), nseries))
     for cid in sorted(structured)[:: max(1, len(structured) // 3)][:3]:
         ctx.sample({"atoms": cases[cid][0], "text": W.concretise(cases[cid][0]), "net": cases[cid][1], "peak": cases[cid][2]})
@@ -429,16 +443,6 @@ def run(ctx):
                "the nesting counter of WikiTokens.tla over-approximates the depth of the tree; texts above 40 are outside the quantifier",
                "template-body mode skips texts that cannot be stored in an archive (lone surrogates; the archive's page separator)",
                "wiki database = nuwiki.Adapt over an archive written by fetch.FsOutput with the bundled siteinfo of the language")
-
-
-STRUCT = None
-
-
-def _load_struct(ctx):
-    global STRUCT
-    if STRUCT is None:
-        _, head, _ = generate(ctx, "structural", 0, name="gen-struct-alpha")
-        STRUCT = set(head["alphabet"])
 
 
 def replay(ctx, path):
